@@ -364,8 +364,9 @@ func (l *commitLog) newReaderCommitted(offset int64) (contextReader, error) {
 	)
 
 	// If offset exceeds HW, wait for the next message. This also covers the
-	// case when the log is empty.
-	if offset > hw || l.OldestOffset() == -1 {
+	// case when the log is empty. A negative offset does not exceed a HW of
+	// -1, but nothing is committed then, so it has to wait as well.
+	if offset > hw || hw == -1 || l.OldestOffset() == -1 {
 		// An offset past the end of the log is capped to the next committed
 		// message.
 		if offset > l.NewestOffset()+1 {
